@@ -109,19 +109,22 @@ func (*ISO3k3y) WriteString(string) (int, error) { return 0, syscall.EPERM }
 func Test3k3yImage(f afero.File) ([]byte, error) {
 	var data [_3k3yMaskedDataSize]byte
 
-	_, err := f.ReadAt(data[:], int64(_3k3yMaskedDataBegin))
-	switch {
-	case errors.Is(err, nil):
-		// pass
-	case errors.Is(err, io.EOF):
-		return nil, ErrNot3k3y
-	default:
+	// file may end inside of the area, watermark and key are at it's beginning
+	n, err := f.ReadAt(data[:], int64(_3k3yMaskedDataBegin))
+	if err != nil && !errors.Is(err, io.EOF) {
 		return nil, err
+	}
+	if sizeBytes(n) < _3k3yWatermarkEnd {
+		return nil, ErrNot3k3y
 	}
 
 	watermark := (*[_3k3yWatermarkSize]byte)(data[_3k3yWatermarkPlacement:_3k3yWatermarkEnd])
 	switch *watermark {
 	case _3k3yEncWatermark:
+		if sizeBytes(n) < _3k3yEncryptionKeyEnd {
+			return nil, ErrNot3k3y
+		}
+
 		return data[_3k3yEncryptionKeyPlacement:_3k3yEncryptionKeyEnd], nil
 	case _3k3yDecWatermark:
 		return nil, nil
